@@ -21,6 +21,7 @@
 //      '/' and '\' -> one '\'; unless the path starts with "textures\" drop everything
 //      up to and including the first "\textures\"; drop leading '\'; add "textures\"
 //      (not OB) and "Data\" (terrain) to relative paths);
+//      applied where that pipeline itself yields a canonical fixed point;
 //  (4) no exception escapes; a single case running > 60 s is reported as a hang.
 // A failing case is classified by root cause (signature) from the failing clause and the
 // symptom visible in the output, so that the runner can get past one cause to the next;
@@ -806,9 +807,21 @@ Verdict prop(Tape& t, Run& run) {
 		C19_REPORT("idempotence");
 	if (changed && violatedClause(in, isOB, c.terrain) == nullptr && !in.empty())
 		C19_REPORT("clean-input-changed");
-	// (3) the documented pipeline, independently implemented
-	if (o.out1 != expected)
-		C19_REPORT("diff");
+	// (3) the documented pipeline, independently implemented. Precondition: on this input the
+	//     documented pipeline itself ends in a canonical fixed point, and does not alter a path
+	//     that is already canonical once trimmed and separator-normalised (otherwise the statement
+	//     and the documentation disagree and there is no single expected value: checks (1) and
+	//     (2) decide those inputs alone).
+	const std::string normalised = collapseSeparators(trimmed(in));
+	const bool specContradictsStatement = violatedClause(normalised, isOB, c.terrain) == nullptr && expected != normalised;
+	if (violatedClause(expected, isOB, c.terrain) == nullptr && spec(expected, isOB, c.terrain) == expected
+		&& !specContradictsStatement) {
+		run.cls("differential:applied");
+		if (o.out1 != expected)
+			C19_REPORT("diff");
+	}
+	else
+		run.cls("differential:not-applicable(documented pipeline not canonical/idempotent on this input)");
 #undef C19_REPORT
 	return OK;
 }
@@ -916,7 +929,8 @@ int main(int argc, char** argv) {
 			 "(whitespace, drive/UNC/absolute prefixes, mixed separator runs, case variants), arbitrary NUL-free bytes "
 			 "(non-UTF-8 included), spliced and long repetitive strings, all <= 4096 bytes. Checked per case: canonical-form "
 			 "predicate on every path of every shape, second clean-up changes nothing, already-canonical input unchanged, "
-			 "equality with a regex-free implementation of the documented pipeline, no exception, 60 s watchdog. "
+			 "equality with a regex-free implementation of the documented pipeline (where that pipeline itself reaches a "
+			 "canonical fixed point), no exception, 60 s watchdog. "
 			 "Non-trivial = the first clean-up changed the path; distinct = hash(path, version class, terrain).";
 	return harnessMain(argc, argv, h);
 }
